@@ -167,10 +167,48 @@ def _switches_from(b, call):
     return out
 
 
+_CONSUMERS = {}
+
+
+def _consuming_bodies(F):
+    """ids of workspace bodies that (transitively) perform a bytes::Buf consuming read: a call to one of them consumes too"""
+    key = id(F)
+    if key in _CONSUMERS:
+        return _CONSUMERS[key]
+    direct = set()
+    callers = defaultdict(set)
+    for b in F.bodies.values():
+        for bl in b.blocks:
+            t = bl["term"]
+            if t["t"] != "call":
+                continue
+            if BUF_CONSUME.search(t.get("f", "")):
+                direct.add(b.id)
+            callers[t.get("r") or t.get("f")].add(b.id)
+    out = set(direct)
+    work = list(direct)
+    while work:
+        x = work.pop()
+        for y in callers.get(x, ()):
+            if y not in out:
+                out.add(y)
+                work.append(y)
+    _CONSUMERS[key] = out
+    return out
+
+
+def _is_consume(F, c):
+    return bool(BUF_CONSUME.search(c.f)) or (F is not None and (c.t.get("r") or c.f) in _consuming_bodies(F))
+
+
+_F_FOR_BUF = [None]
+
+
 def _consumes_between(b, frm, to, exclude_bb=None, only_len_changing=False):
-    """is there a buffer-consuming call on some path from block `frm` (exclusive) to block `to` (exclusive)?"""
+    """is there a buffer-consuming call (direct, or a call to a workspace helper that consumes) on some path from block `frm`
+    (exclusive) to block `to` (exclusive)?"""
     for c in b.calls:
-        if not BUF_CONSUME.search(c.f):
+        if not _is_consume(_F_FOR_BUF[0], c):
             continue
         if c.bb in (frm, to) or c.bb == exclude_bb:
             continue
@@ -270,7 +308,7 @@ def _buf_guard(b, site_bb):
 def _buf_guard_via_callers(F, D, b, c):
     """wrapper idiom: a private helper whose read is the first consuming read on every path from its entry is guarded when
     every call site of the helper is guarded in its caller"""
-    if any(x is not c and BUF_CONSUME.search(x.f) and b.can_reach(x.bb, c.bb) and x.bb != c.bb for x in b.calls):
+    if any(x is not c and _is_consume(F, x) and b.can_reach(x.bb, c.bb) and x.bb != c.bb for x in b.calls):
         return False, "the helper consumes before this read"
     sites = [x for x in F.callers_of(b.id)]
     if not sites:
@@ -324,6 +362,7 @@ def buf_rule(ctx, D, R=None):
     R = R or ctx.rule("C09.buf", "K8+K2", "every bytes::Buf consuming read in the decode closure is dominated by a remaining()/len check with an error edge and no other consuming read in between (directly, or at every call site of a private read helper); get_int/get_uint widths are <= 8 and signed reads exclude width 0")
     n = 0
     F = ctx.F
+    _F_FOR_BUF[0] = F
     Dset = set(D)
     for b in D:
         cons = [c for c in b.calls if BUF_CONSUME.search(c.f)]
@@ -357,8 +396,9 @@ def buf_rule(ctx, D, R=None):
     R.ok("scan", "", "%d bytes::Buf consuming reads inspected" % n, nontrivial=n > 0)
 
 
-def _width_bounded_at_callers(F, D, b, c, place):
-    """the width is a parameter of a private helper: bounded at every call site"""
+def _width_bounded_at_callers(F, D, b, c, place, depth=0):
+    """the width is a parameter of a private helper: bounded at every call site (or, if the caller merely forwards its own
+    parameter, at the caller's call sites)"""
     if len(place) != 1 or not (1 <= place[0] <= b.argc):
         al = _alias_locals(b, place[0])
         ps = [l for l in al if 1 <= l <= b.argc]
@@ -378,8 +418,13 @@ def _width_bounded_at_callers(F, D, b, c, place):
             if (F.const_value(op_const(a)) or 99) > 8:
                 return False
             continue
-        if op_place(a) is None or not _width_bounded(x.body, x, op_place(a)):
+        if op_place(a) is None:
             return False
+        if _width_bounded(x.body, x, op_place(a)):
+            continue
+        if depth < 3 and _width_bounded_at_callers(F, D, x.body, x, op_place(a), depth + 1):
+            continue
+        return False
     return True
 
 
